@@ -414,6 +414,36 @@ func c10Families(tier string) []explore.Family {
 			}
 		}})
 	}
+	// --- when-values and conditions spelled as string LITERALS that contain the words and punctuation of the
+	// syntax itself (or, and, a comma, a colon, when, quotes of the other kind): the literal is one value
+	lits := []string{"yes or no", "yes, no", "a or b, c", " or ", "or", "and", "a and b", "x contains y", "when", "a, b", "1, 2", "a:b", "it's", "else", "endcase", "a | upcase", "nil", "true", "", "yes", "no"}
+	fams = append(fams, explore.Family{Name: "literals-with-syntax-words", Count: int64(len(lits) * len(lits)), Run: func(i int64, r *explore.Rec) {
+		subj, lit := lits[int(i)/len(lits)], lits[int(i)%len(lits)]
+		q := `"` + lit + `"`
+		if strings.Contains(lit, `"`) {
+			q = "'" + lit + "'"
+		}
+		eq := subj == lit
+		pick := func(t, f string) string {
+			if eq {
+				return t
+			}
+			return f
+		}
+		src := "{% case s %}{% when " + q + " %}W{% else %}E{% endcase %}|{% case s %}{% when 'zzz', " + q + " %}W{% else %}E{% endcase %}|" +
+			"{% if s == " + q + " %}T{% else %}F{% endif %}|{% unless s == " + q + " %}U{% else %}V{% endunless %}|{% if s != " + q + " %}N{% elsif s == " + q + " %}Q{% endif %}|" +
+			"{% case m[" + q + "] %}{% when 1 %}K{% else %}L{% endcase %}"
+		want := pick("W|W|T|V|Q|K", "E|E|F|U|N|L")
+		r.Eval()
+		r.Transition()
+		r.Trace()
+		o := Render(c10.eng, src, map[string]any{"s": subj, "m": map[string]any{subj: 1}})
+		r.Class("syntax-word-literals/" + pick("equal", "different"))
+		if o.Panic != nil || o.Err != nil || o.Out != want {
+			r.Violation("wrong-branch:literal-with-syntax-words", map[string]any{"template": src, "s": subj}, want, o.String())
+		}
+	}})
+
 	// --- deep nesting: depth 1..40, the first failing condition at every level (or none), four shapes per level
 	// (if/else, unless/else, if/elsif/else with the elsif taken, case/when/else); exactly one path is rendered
 	const deepMax = 40
